@@ -511,12 +511,14 @@ def c07_7(ctx, ss):
     outer, oflow = fn(ss, DEC, "get_particle_property_definitions")
     mfx = pf.module_facts(ss, DEC)
     cands = []
+    site = None
     for c in pf.calls_in(outer.node, nested=False):
-        if isinstance(c.func, ast.Name) and len(c.args) == 1 and txt(oflow.expand(c.args[0])).endswith(".children"):
+        if isinstance(c.func, ast.Name) and len(c.args) >= 1 and not c.keywords and txt(oflow.expand(c.args[0])).endswith(".children"):
             q_ = f"get_particle_property_definitions.{c.func.id}"
             q_ = q_ if q_ in mfx.funcs else c.func.id
             if q_ in mfx.funcs and q_ not in cands:
                 cands.append(q_)
+                site = c
     if len(cands) != 1:
         raise AnchorMissing(f"get_particle_property_definitions: the helper giving the width of a statement was not found ({cands})")
     ff, flow = fn(ss, DEC, cands[0])
@@ -550,6 +552,15 @@ def c07_7(ctx, ss):
         and txt(core.value.func) == "Particle.from_evtgen_name"
     arg = core.value.args[0] if ok_w and core.value.args else None
     ok_alias = False
+    if arg is not None and site is not None and len(site.args) > 1:
+        # a module-level helper gets what the nested one closes over as further parameters: read them at the call site
+        import copy as _copy
+        bind = {p_: oflow.expand(a_) for p_, a_ in zip(ff.params[1:], site.args[1:])}
+
+        class _B(ast.NodeTransformer):
+            def visit_Name(self, n):
+                return _copy.deepcopy(bind[n.id]) if n.id in bind and isinstance(n.ctx, ast.Load) else n
+        arg = _B().visit(_copy.deepcopy(arg))
     if arg is not None:
         for a in phi_alts(arg):
             pass
